@@ -540,7 +540,10 @@ func judgeC14(sc *Scenario, rr *RunResult) (string, string) {
 			}
 			break
 		}
-		name := strings.ToLower(string(op.Args[0]))
+		name := ""
+		if len(op.Args) > 0 {
+			name = strings.ToLower(string(op.Args[0]))
+		}
 		if touchesTTLKey(op.Args) || (sc.Knobs.TTL && name == "keys") {
 			continue // the reference ran at other instants: judged by ttlJudge instead
 		}
